@@ -9,6 +9,8 @@
 #include <signal.h>
 #include <time.h>
 #include <locale.h>
+#include <sched.h>
+#include <map>
 
 extern "C" char pseudo_state[8];
 
@@ -58,7 +60,7 @@ void start_tasks(int n) {
         if (t->seam_stack == MAP_FAILED) { perror("mmap"); exit(3); }
         sem_init(&t->go, 0, 0);
         t->state = TS_IDLE; t->preemptible = false; t->countdown = 0; t->cur = nullptr; t->entry_sp = nullptr; t->seam_req = nullptr;
-        t->edges_call = t->edges_total = 0; t->last_guard = 0;
+        t->edges_call = t->edges_total = 0; t->last_guard = 0; t->locks_held = 0; t->blocked = false; t->ticks_in_quantum = 0;
         memset(t->slots, 0, sizeof t->slots);
         pthread_attr_t a; pthread_attr_init(&a);
         pthread_attr_setstack(&a, t->stack_lo, t->stack_size);
@@ -447,6 +449,7 @@ void monitor_access(const void* addr, unsigned size, bool store) {
         return;
     }
     // shared memory: library globals and tables
+    if (t->locks_held > 0) { E.under_lock_accesses++; return; }      // synchronised by the lock / once-routine
     uintptr_t a = (uintptr_t)addr;
     for (unsigned k = 0; k < size;) {
         uintptr_t g = (a + k) >> 3; unsigned lo = (a + k) & 7, cnt = std::min(8 - lo, size - k);
@@ -519,6 +522,32 @@ size_t sim_strlen(const char* a) { size_t n = strlen(a); mem_range(a, n + 1, fal
 char* sim_strcpy(char* d, const char* s) { size_t n = strlen(s) + 1; mem_range(s, n, false); mem_range(d, n, true); return strcpy(d, s); }
 char* sim_strncpy(char* d, const char* s, size_t n) { mem_range(s, strnlen(s, n), false); mem_range(d, n, true); return strncpy(d, s, n); }
 int sim_strncmp(const char* a, const char* b, size_t n) { mem_range(a, strnlen(a, n), false); mem_range(b, strnlen(b, n), false); return strncmp(a, b, n); }
+
+// ---- synchronisation primitives, should the library ever use them: never block for real (only one task runs at a
+// time), and accesses made while holding a lock (or inside a once-routine) are regarded as synchronised.
+static void blocked_yield() { Task* t = tls_task; if (t && t->preemptible) { t->blocked = true; task_yield(t, TS_PREEMPTED); } else sched_yield(); }
+int sim_mutex_lock(pthread_mutex_t* m) { for (int spins = 0; pthread_mutex_trylock(m) != 0; ++spins) { if (spins > 1000000) return 35 /* EDEADLK */; blocked_yield(); } if (tls_task) tls_task->locks_held++; return 0; }
+int sim_mutex_trylock(pthread_mutex_t* m) { int r = pthread_mutex_trylock(m); if (r == 0 && tls_task) tls_task->locks_held++; return r; }
+int sim_mutex_unlock(pthread_mutex_t* m) { if (tls_task && tls_task->locks_held > 0) tls_task->locks_held--; return pthread_mutex_unlock(m); }
+int sim_rwlock_rdlock(pthread_rwlock_t* m) { for (int spins = 0; pthread_rwlock_tryrdlock(m) != 0; ++spins) { if (spins > 1000000) return 35; blocked_yield(); } if (tls_task) tls_task->locks_held++; return 0; }
+int sim_rwlock_wrlock(pthread_rwlock_t* m) { for (int spins = 0; pthread_rwlock_trywrlock(m) != 0; ++spins) { if (spins > 1000000) return 35; blocked_yield(); } if (tls_task) tls_task->locks_held++; return 0; }
+int sim_rwlock_unlock(pthread_rwlock_t* m) { if (tls_task && tls_task->locks_held > 0) tls_task->locks_held--; return pthread_rwlock_unlock(m); }
+int sim_spin_lock(pthread_spinlock_t* m) { for (int spins = 0; pthread_spin_trylock(m) != 0; ++spins) { if (spins > 1000000) return 35; blocked_yield(); } if (tls_task) tls_task->locks_held++; return 0; }
+int sim_spin_unlock(pthread_spinlock_t* m) { if (tls_task && tls_task->locks_held > 0) tls_task->locks_held--; return pthread_spin_unlock(m); }
+struct OnceState { int state; int owner; };
+static std::map<void*, OnceState>& once_map() { static std::map<void*, OnceState> m; return m; }
+static int do_once(void* ctl, void (*fn)(void)) {
+    for (;;) {
+        OnceState& st = once_map()[ctl];
+        if (st.state == 2) return 0;
+        if (st.state == 0) { st.state = 1; st.owner = tls_task ? tls_task->id : -1; if (tls_task) tls_task->locks_held++; fn(); if (tls_task) tls_task->locks_held--; once_map()[ctl].state = 2; return 0; }
+        blocked_yield();
+    }
+}
+int sim_pthread_once(pthread_once_t* ctl, void (*fn)(void)) { return do_once(ctl, fn); }
+void sim_call_once(void* flag, void (*fn)(void)) { do_once(flag, fn); }
+int sim_mtx_lock(void* m) { return sim_mutex_lock((pthread_mutex_t*)m) == 0 ? 0 /* thrd_success */ : 2; }
+int sim_mtx_unlock(void* m) { return sim_mutex_unlock((pthread_mutex_t*)m) == 0 ? 0 : 2; }
 
 // libc functions with hidden static state: a call is a store to that state as far as the race oracle is concerned
 char pseudo_state[8];
